@@ -57,7 +57,16 @@ func (d c19Duplex) Write(p []byte) (int, error) {
 	return len(p), nil
 }
 
-func (f *faultyReader) Read(p []byte) (int, error) {
+func (f *faultyReader) Read(p []byte) (n int, err error) {
+	defer func() {
+		if err == errC19Panic {
+			panic(c19PanicValue)
+		}
+	}()
+	return f.read(p)
+}
+
+func (f *faultyReader) read(p []byte) (int, error) {
 	f.reads++
 	if f.reads > 2000000+1100*len(f.data) {
 		// more reads than any ReadFull-based consumer of this stream can need under the slowest chunking (1000 empty reads per unit,
@@ -157,6 +166,26 @@ func (s *c19Script) reader() *faultyReader {
 // c19Judge applies the model. gotErr/outputsNil describe the call's result; equalRef tells whether a successful result equals the reference.
 func c19Judge(t vt.TB, rec *stats.Recorder, fn string, s *c19Script, rd *faultyReader, panicked interface{}, gotErr error, outputsNil bool, equalRef func() bool) {
 	desc := fmt.Sprintf("%s: stream of %d bytes, %d needed, first failure at byte %d (err=%v, with data=%v, source recovers afterwards=%v), chunks=%v", fn, len(s.stream), s.need, s.failAt, s.err, s.withData, s.transient, s.chunks)
+	if s.err == errC19Panic {
+		// the source panics where the other scripts return an error. Reached at all? (a failure placed after the last needed byte is
+		// never read.) Then the call must not succeed: the panic propagates, or it is reported as an error without any output.
+		reached := s.failAt >= 0 && (s.failAt < s.need || (s.withData && s.failAt == s.need && s.failAt > 0))
+		switch {
+		case panicked != nil && fmt.Sprint(panicked) == c19PanicValue && reached:
+			return
+		case panicked != nil:
+			vt.Fail(t, rec, "C19:"+fn+":panic", "panic %v\n%s\nstream=%s", panicked, desc, stats.Hex(s.stream))
+			return
+		case reached && gotErr == nil:
+			vt.Fail(t, rec, "C19:"+fn+":no-error", "the source panicked inside Read before the needed bytes were delivered, but the call returned success\n%s\nstream=%s", desc, stats.Hex(s.stream))
+			return
+		case reached:
+			if !outputsNil {
+				vt.Fail(t, rec, "C19:"+fn+":output-with-error", "an error was returned together with a public key / signature\n%s", desc)
+			}
+			return
+		}
+	}
 	if panicked != nil {
 		vt.Fail(t, rec, "C19:"+fn+":panic", "panic %v\n%s\nstream=%s", panicked, desc, stats.Hex(s.stream))
 		return
@@ -247,7 +276,13 @@ type c19NilPtrErr struct{}
 
 func (*c19NilPtrErr) Error() string { return "rng failure (nil receiver)" }
 
-var c19Errs = []error{io.EOF, io.ErrUnexpectedEOF, errC19, syscall.EAGAIN, syscall.EINTR,
+// errC19Panic stands for a source that does not return an error but PANICS inside Read (a driver bug, a closed device handle): the
+// bytes it delivered before are in the caller's buffer. Letting the panic through is fine; turning it into success is not.
+var errC19Panic = errors.New("verif: the source panics inside Read")
+
+const c19PanicValue = "verif: entropy source panicked inside Read"
+
+var c19Errs = []error{errC19Panic, io.EOF, io.ErrUnexpectedEOF, errC19, syscall.EAGAIN, syscall.EINTR,
 	&os.PathError{Op: "read", Path: "/dev/hwrng", Err: syscall.EAGAIN}, fmt.Errorf("rng: %w", c19TempErr{}), os.ErrDeadlineExceeded,
 	// errors that LOOK like "no error" to code that inspects them instead of comparing with nil
 	syscall.Errno(0), &os.PathError{Op: "read", Path: "/dev/hwrng", Err: syscall.Errno(0)}, os.NewSyscallError("getrandom", syscall.Errno(0)),
